@@ -70,6 +70,7 @@ pub fn run(prop: &str, tier: &str, seed: u64, outfile: &str) {
     match prop {
         "C05" => gen_c05(&mut out, &mut rng, thorough),
         "C09" => gen_c09(&mut out, &mut rng, thorough),
+        "smoke" => gen_smoke(&mut out, &mut rng),
         _ => {
             eprintln!("unknown property {}", prop);
             std::process::exit(2);
@@ -215,5 +216,47 @@ fn gen_c09(out: &mut Out, rng: &mut Rng, thorough: bool) {
             };
         }
         out.job(move || classify_line(&s));
+    }
+}
+
+// ---------------------------------------------------------------------------------------------
+// `build <hex> <ecl> <mode> <version> <mask> => <full outcome>`: the general end-to-end case.
+pub fn build_line(input: &[u8], o: Opts) -> String {
+    let r = build(input, o);
+    format!(
+        "build {} {} {} {} {} => {}",
+        hex(input),
+        opt(o.ecl),
+        opt(o.mode),
+        opt(o.version),
+        opt(o.mask),
+        outcome_full(&r)
+    )
+}
+
+/// random content of `len` characters over the alphabet of `mode` (0 numeric, 1 alnum, 2 byte)
+pub fn content(rng: &mut Rng, mode: usize, len: usize) -> Vec<u8> {
+    const ALNUM: &[u8] = b"0123456789ABCDEFGHIJKLMNOPQRSTUVWXYZ $%*+-./:";
+    (0..len)
+        .map(|_| match mode {
+            0 => b'0' + rng.below(10) as u8,
+            1 => *rng.pick(ALNUM),
+            _ => rng.byte(),
+        })
+        .collect()
+}
+
+fn gen_smoke(out: &mut Out, rng: &mut Rng) {
+    for v in [0usize, 1, 6, 9, 20, 39] {
+        for e in 0..4 {
+            for m in 0..3 {
+                let cap = (0..8000).rev().find(|&l| h::version_get(mode_of(m), ecl_of(e), l).map_or(false, |x| x as usize <= v)).unwrap_or(0);
+                let len = rng.range(0, cap);
+                let inp = content(rng, m, len);
+                let mask = if rng.chance(1, 2) { None } else { Some(rng.below(8)) };
+                let o = Opts { ecl: Some(e), mode: Some(m), version: Some(v), mask };
+                out.job(move || build_line(&inp, o));
+            }
+        }
     }
 }
